@@ -43,7 +43,7 @@ for _pid, _title in (("C03", "set"), ("C04", "delete"), ("C09", "query/create"))
      script="checks/edit_session.py", args=" --property " + _pid,
      engine="edit-session", level="exploration",
      technique="seeded operation histories (set/create/delete/query/reopen) against the real Processor, refinement-checked step by step against a plain-data reference model, with persist/reopen cycles through the simulated file system",
-     text="Each session is one evolving document and a seeded history of 1-12 operations (plus an unjudged alias step as history builder) whose paths are drawn against the current state in some twenty path forms (concrete, quoted, negative index, slices, every search operator and keyword, anchors, wildcards, traversal, collectors); after every step the full snapshot (typed data, key and list order, anchors, alias groups) must equal the reference model's prediction for that step (%s oracle), and the document must dump and strictly reload to the same data; about one session in eight drives the same history through the real yaml-set entry point on the simulated file system (one process per step), one in ten uses YAML merge keys. Seeded search over histories, not a proof." % _title,
+     text="Each session is one evolving document and a seeded history of 1-12 operations (plus an alias step as history builder, judged only in that its result must still dump and strictly reload) whose paths are drawn against the current state in some twenty path forms (concrete, quoted, negative index, slices, every search operator and keyword, anchors, wildcards, traversal, collectors); after every step the full snapshot (typed data, key and list order, anchors, alias groups) must equal the reference model's prediction for that step (%s oracle), and the document must dump and strictly reload to the same data; about one session in eight drives the same history through the real yaml-set entry point on the simulated file system (one process per step), one in ten uses YAML merge keys. Seeded search over histories, not a proof." % _title,
      note="Which nodes a path matches is taken from the real read path and located through each result's parent container (C01/C02 are not claimed); documents carry no comments or blank lines (ruamel.yaml 0.17.21 mislays them by itself when neighbouring nodes change) and no custom tags; there is no scheduler nondeterminism in this engine, the fault dimension is limited to failed operations and the simulated FS of persist/reopen.",
      design="DESIGN.md section 4")
 
